@@ -35,6 +35,9 @@ def run(chk, ctx) -> None:
            ctx.prog.cls('_LowHandOpeningLookup').loc,
            'the low-hand opening lookup ranks ace low (REGULAR), the high-hand one ace high (STANDARD); category tables are checked under C04',
            got=(lo, hi))
+    from .helpers import extremum_helpers, sign_helper
+    extremum_helpers(chk, ctx, 'C13.helpers')
+    sign_helper(chk, ctx, 'C13.helpers')
     HIGH_ORDER = T.spec('_HighHandOpeningLookup.rank_order')
     LOW_ORDER = T.spec('_LowHandOpeningLookup.rank_order')
     key = lambda order: ('call', 'partial', (('localfn', 'card_key'), order), ())  # noqa
